@@ -127,7 +127,7 @@ MemDepCase(x) ==
 
 (* ------------------------------- MemWalk (C05) ----------------------------- *)
 (* loop 1 walks `count` elements with `stride` from `first`, doing `mix`; loop 2 re-reads them and sums into t2 *)
-Mixes == {"l", "s", "ls", "sl", "rmw"}
+Mixes == {"l", "s", "ls", "sl", "rmw", "ssl"}
 Body(mix, w) ==
   LET L == IF w = 1 THEN Lb("t0", "a0", 0) ELSE IF w = 2 THEN Lh("t0", "a0", 0) ELSE Lw("t0", "a0", 0)
       S == IF w = 1 THEN Sb("t1", "a0", 0) ELSE IF w = 2 THEN Sh("t1", "a0", 0) ELSE Sw("t1", "a0", 0)
@@ -135,6 +135,8 @@ Body(mix, w) ==
        [] mix = "s" -> <<S, Addi("t1", "t1", 3)>>
        [] mix = "ls" -> <<L, AddI("t2", "t2", "t0"), S, Addi("t1", "t1", 3)>>
        [] mix = "sl" -> <<S, L, AddI("t2", "t2", "t0"), Addi("t1", "t1", 3)>>
+       \* two store misses in a row keep the write path busy while the second line is re-read
+       [] mix = "ssl" -> <<S, [S EXCEPT !.imm = 64], [L EXCEPT !.imm = 64], AddI("t2", "t2", "t0"), Addi("t1", "t1", 3)>>
        [] mix = "rmw" -> <<L, Addi("t0", "t0", 1), IF w = 1 THEN Sb("t0", "a0", 0) ELSE IF w = 2 THEN Sh("t0", "a0", 0) ELSE Sw("t0", "a0", 0)>>
 WalkProg(mix, w, stride, count, first) ==
   LET b == Body(mix, w)
